@@ -1939,14 +1939,19 @@ def split_pad_to_sub_pad(op, arch, nng):
         return op
 
     inp, pad_tensor = op.inputs
-    if len(pad_tensor.values) == 3 or sum(pad_tensor.values[-1, :]) == 0 or sum(pad_tensor.values[0, :]) == 0:
+    # convert_pad_to_concat handles a PAD of the first or the last axis alone. When such an axis is padded together with
+    # others, this op keeps that one axis and a new PAD in front of it (visited next) takes all the others
+    padded_axes = [idx for idx in range(len(pad_tensor.values)) if sum(pad_tensor.values[idx, :]) != 0]
+    concat_axes = [idx for idx in padded_axes if idx in (0, len(pad_tensor.values) - 1)]
+    if not concat_axes or len(padded_axes) < 2:
         return op
+    keep_axis = concat_axes[0]
 
     pad_sub = op.clone("_sub")
 
     dtype = op.outputs[0].dtype
     out_shape = op.outputs[0].shape.copy()
-    out_shape[0] -= sum(pad_tensor.values[0])
+    out_shape[keep_axis] -= sum(pad_tensor.values[keep_axis])
     pad_sub_out = Tensor(out_shape, dtype, f"{op.outputs[0].name}_sub")
     pad_sub_out.quantization = op.outputs[0].quantization
 
@@ -1960,8 +1965,9 @@ def split_pad_to_sub_pad(op, arch, nng):
     # the paddings constant of the op may be shared with other PAD operators: work on a copy instead of changing it in place
     pad_tensor1 = create_const_tensor(
             f"{pad_tensor.name}_main", pad_shape, pad_dtype, pad_tensor.values.copy(), quantization=quantization)
-    pad_tensor1.values[3] = [0, 0]
-    pad_tensor2.values[0] = [0, 0]
+    pad_tensor1.values[:] = 0
+    pad_tensor1.values[keep_axis] = pad_tensor.values[keep_axis]
+    pad_tensor2.values[keep_axis] = [0, 0]
 
     op.set_input_tensor(pad_tensor1, 1)
     op.set_input_tensor(pad_sub_out, 0)
@@ -1984,6 +1990,9 @@ def convert_pad_to_concat(op, arch, nng):
     elif sum(pad_tensor.values[0, :]) != 0:
         axis = 0
     else:
+        return op
+    if np.count_nonzero(np.delete(pad_tensor.values, axis, 0)):
+        # the pieces below have the input's extent on every other axis (split_pad_to_sub_pad leaves a single padded axis)
         return op
 
     outputs = op.outputs
